@@ -263,4 +263,87 @@ class Refusals(SubCheck):
             env.scratch.drop(path)
 
 
-SUBCHECKS = [Contenders(), Refusals()]
+class ProcessContenders(SubCheck):
+    """The same loops with every contender in its own OS process (RLock identity is pid-tid; the lock lives in the directory)."""
+
+    name = 'process_contenders'
+
+    def examples(self, tier):
+        return 30 if tier == 'quick' else 1200
+
+    def strategy(self, tier):
+        return case_strategy().filter(lambda c: not c['kind'].startswith('barrier')).map(lambda c: dict(c, clients=c['clients'][:3]))
+
+    def execute(self, case, env):
+        import diskcache
+        from diskcache import recipes
+
+        from .. import procsched
+
+        kind, value, n = case['kind'], case['value'], len(case['clients'])
+        limit = value if kind == 'sem' else 1
+        witness = {'holders': 0, 'max': 0, 'log': [], 'bad': None}
+
+        def setup(path):
+            if case['cache'] == 'fanout':
+                return diskcache.FanoutCache(path, shards=2, timeout=0)
+            return diskcache.Cache(path, timeout=0)
+
+        def make_client(path, shared, i):
+            if case['mode'] == 'shared' and i >= 0:
+                c = shared  # the object opened before the fork
+            elif case['cache'] == 'fanout':
+                c = diskcache.FanoutCache(path, shards=2, timeout=0)
+            else:
+                c = diskcache.Cache(path, timeout=0)
+            for shard in ([c] if isinstance(c, diskcache.Cache) else c._shards):
+                shard._sql
+            if kind == 'lock':
+                return recipes.Lock(c, 'the-lock')
+            if kind == 'rlock':
+                return recipes.RLock(c, 'the-lock')
+            return recipes.BoundedSemaphore(c, 'the-lock', value=value)
+
+        def do_op(lock, op):
+            ctl = procsched.CURRENT['ctl']
+            depth = op[1]
+            try:
+                for _ in range(depth):
+                    lock.acquire()
+                ctl.message(('ENTER',))
+                for _ in range(3):
+                    ctl.custom_yield('cs:inside')
+                ctl.message(('EXIT',))
+                for _ in range(depth):
+                    lock.release()
+                return ('ok', None)
+            except Exception as exc:
+                return ('exc', type(exc).__name__)
+
+        def on_message(idx, msg):
+            if msg[0] == 'ENTER':
+                witness['holders'] += 1
+                witness['log'].append(('enter', idx, witness['holders']))
+                if witness['holders'] > limit and witness['bad'] is None:
+                    witness['bad'] = list(witness['log'][-6:])
+            elif msg[0] == 'EXIT':
+                witness['holders'] -= 1
+                witness['log'].append(('exit', idx, witness['holders']))
+
+        progs = [[('loop', d) for d in loops] for loops in case['clients']]
+        total_ops = sum(sum(loops) for loops in case['clients'])
+        max_steps = 50 * 14 * max(total_ops, 1) * (3 if case['cache'] == 'fanout' else 1)
+        calls, run = procsched.run_scheduled_procs(env, progs, case['schedule'], setup, make_client, do_op, 'C15', max_steps=max_steps, on_message=on_message)
+        desc = '%s value=%d on %s, processes (%s object), clients=%r' % (kind, value, case['cache'], 'inherited' if case['mode'] == 'shared' else 'own', case['clients'])
+        if witness['bad'] is not None:
+            raise Violation('C15/mutual-exclusion/%s/processes' % kind, '%d holders at once (limit %d) for %s\nwitness: %r' % (max(w[2] for w in witness['log']), limit, desc, witness['bad']))
+        for c in calls:
+            if c.result[0] == 'exc':
+                raise Violation('C15/unexpected-exception/%s' % c.result[1], 'well-formed acquire/release loop raised %s for %s' % (c.result[1], desc))
+        if run.limit_hit:
+            raise Violation('C15/liveness/%s/processes' % kind, 'contenders did not all finish within %d steps for %s; last steps %r' % (max_steps, desc, run.trace[-10:]))
+        waited = any(lab == 'sleep' for (_, _, lab) in run.trace)
+        return {'nontrivial': waited, 'classes': ['kind=' + kind, 'cache=' + case['cache'], 'object=' + ('inherited' if case['mode'] == 'shared' else 'own')]}
+
+
+SUBCHECKS = [Contenders(), Refusals(), ProcessContenders()]
